@@ -1248,6 +1248,22 @@ impl<'p, 'c, 'cc, V: SimVdaf<VK>, A: Adapter<V>, const VK: usize> World<'p, 'c, 
                     }
                 }
             }
+            // the batch entry point must refuse it too, whatever its position in the batch
+            let vdaf = self.vdaf;
+            let apv = self.aps[ap_idx].clone();
+            for pos in 0..2usize {
+                let mut batch: Vec<V::OutputShare> = Vec::new();
+                if pos == 1 {
+                    batch.push(o0.clone());
+                }
+                batch.push(bad.clone());
+                let r3 = guard("aggregate(batch with a mismatched share)", || vdaf.aggregate(&apv, batch));
+                match r3 {
+                    Err(v) => self.ctx.fail(v),
+                    Ok(Ok(_)) => self.ctx.fail(Violation::new("C13.refusal", "aggregate|accepted_mismatch", format!("aggregate accepted a batch whose share #{pos} is {what}"))),
+                    Ok(Err(_)) => self.ctx.counters.inc("c13.refusals"),
+                }
+            }
             let mut a2 = acc.clone();
             let other: V::AggregateShare = V::AggregateShare::from(bad.clone());
             let r2 = guard("merge(mismatched share)", || a2.merge(&other));
